@@ -24,11 +24,12 @@ def plan(tier, seed):
     n = 250 if tier == "quick" else 3000
     specs_ = [{"n": n, "sub": i} for i in range(16)]
     specs_ += [{"kind": "ix", "n": 40 if tier == "quick" else 400, "sub": 900 + i} for i in range(16)]
+    specs_ += [{"kind": "bigconc", "n": 3 if tier == "quick" else 14, "sub": 1400 + i} for i in range(16)]
     return specs_
 
 
 def floors(tier):
-    return {"cls:feature_interaction_query": 300, "distinct_nontrivial": 300, "cls:variant:one": 500, "cls:variant:in": 300, "cls:variant:contains": 300,
+    return {"re:cls:scale:concatenation_of_80_to_200_elements:.*": 140, "cls:feature_interaction_query": 300, "distinct_nontrivial": 300, "cls:variant:one": 500, "cls:variant:in": 300, "cls:variant:contains": 300,
             "cls:variant:notin": 300, "cls:variant:notcontains": 200, "cls:variant:or_in": 150, "cls:variant:not_and_in": 150,
             "cls:variant:and_in": 150, "cls:variant:one_setof": 100, "cls:variant:in_with_list": 100, "cls:variant:index0": 100, "cls:variant:two_lists": 100, "cls:variant:two_tests_same_parent": 100, "cls:variant:parent_bound_first": 100, "cls:preceded_by_an_abandoned_evaluation": 1000,
             "cls:inner_collections_are_one_shot_iterators": 150, "cls:concatenate_of_flatten_over_lists_of_lists": 100, "cls:variant:prebound_in": 150, "cls:variant:prebound_notin": 100,
@@ -36,7 +37,103 @@ def floors(tier):
             "re:Concatenate(@.*)?\\.enter": 2000}
 
 
+def _big_classes():
+    """classes of the big-concatenation workload (made once per process)"""
+    if not _BIG:
+        from dataclasses import dataclass, field
+        from typing import Any, List
+        from entity_query_language import symbol
+
+        @symbol
+        @dataclass(eq=False)
+        class Shelf:
+            name: str = ""
+            items: List[Any] = field(default_factory=list)
+
+        @symbol
+        @dataclass(eq=False)
+        class Cand:
+            key: Any = None
+            level: int = 0
+
+        @symbol
+        @dataclass(eq=False)
+        class Tier:
+            level: int = 0
+        _BIG.update({"Shelf": Shelf, "Cand": Cand, "Tier": Tier})
+    return _BIG["Shelf"], _BIG["Cand"], _BIG["Tier"]
+
+
+_BIG = {}
+
+
+def check_bigconc_case(case, ctx):
+    """SIZE: a concatenation of 80-200 elements (25-45 parents), whose elements are EQUAL to the candidates' keys without being the
+    same objects (strings built at run time, numbers above the small-int cache); hundreds of candidates, optionally joined with
+    three tiers so that the membership test is asked again for the same candidate; evaluated twice"""
+    from entity_query_language import symbolic_mode, an, entity, set_of, let, in_, not_, and_
+    from entity_query_language.entity import concatenate
+    from entity_query_language.cache_data import enable_caching, disable_caching
+    Shelf, Cand, Tier = _big_classes()
+    ctx.cls("cls:scale:concatenation_of_80_to_200_elements:" + case["shape"])
+    mk = (lambda n: "key-%d" % n) if case["strings"] else (lambda n: 1000 + n)
+    shelves = [Shelf("s%d" % i, [mk(n) for n in items]) for i, items in enumerate(case["shelves"])]
+    cands = [Cand(mk(n), lv) for n, lv in case["cands"]]
+    tiers = [Tier(lv) for lv in case["tiers"]]
+    stocked = {n for items in case["shelves"] for n in items}
+    neg = case["shape"].startswith("not")
+    ok = lambda n: (n in stocked) != neg
+    if case["shape"].endswith("tiers"):
+        exp = sorted((ti, ci) for ti, t in enumerate(tiers) for ci, (n, lv) in enumerate(case["cands"]) if t.level <= lv and ok(n))
+    else:
+        exp = sorted(ci for ci, (n, lv) in enumerate(case["cands"]) if ok(n))
+    if 0 < len(exp):
+        ctx.nontrivial()
+    (enable_caching if case["caching"] else disable_caching)()
+    try:
+        with symbolic_mode():
+            s = let(Shelf, shelves)
+            c = let(Cand, cands)
+            test = in_(c.key, concatenate(s.items))
+            if neg:
+                test = not_(test)
+            if case["shape"].endswith("tiers"):
+                t = let(Tier, tiers)
+                q = an(set_of([t, c], and_(t.level <= c.level, test)))
+            else:
+                q = an(entity(c, test))
+        cidx = {id(o): i for i, o in enumerate(cands)}
+        tidx = {id(o): i for i, o in enumerate(tiers)}
+        for rnd in range(2):
+            if case["shape"].endswith("tiers"):
+                got = sorted((tidx[id(r[t])], cidx[id(r[c])]) for r in q.evaluate())
+            else:
+                got = sorted(cidx[id(r)] for r in q.evaluate())
+            if got != exp:
+                ctx.fail("BIGCONC:" + ("missing" if set(exp) - set(got) else "") + ("+extra" if set(got) - set(exp) else ""),
+                         {"shape": case["shape"], "evaluation": rnd + 1, "n_expected": len(exp), "n_observed": len(got),
+                          "elements": sum(len(x) for x in case["shelves"])})
+                return
+    except Exception as e:
+        import traceback
+        ctx.fail("EXC", f"bigconc: {type(e).__name__}: {e}\n{traceback.format_exc()[-500:]}")
+    finally:
+        enable_caching()
+    ctx.sample({"bigconc": case["shape"], "elements": sum(len(x) for x in case["shelves"]), "expected": len(exp)})
+
+
 def cases(spec, ctx):
+    if spec.get("kind") == "bigconc":
+        for i in range(spec["n"]):
+            rng = ctx.rng(spec["sub"], i)
+            shape = ["in", "not_in", "in_tiers", "not_in_tiers"][(i + spec["sub"]) % 4]
+            nshelves = rng.randint(25, 45)
+            ncand = rng.randint(250, 600) if shape.endswith("tiers") else rng.randint(60, 160)
+            yield {"bigconc": True, "shape": shape, "strings": rng.random() < 0.5,
+                   "shelves": [rng.sample(range(400), rng.randint(2, 5)) for _ in range(nshelves)],
+                   "cands": [[rng.randrange(400), rng.randint(1, 3)] for _ in range(ncand)],
+                   "tiers": rng.sample([1, 2, 3], 3), "caching": rng.random() < 0.85}
+        return
     if spec.get("kind") == "ix":
         from .. import ix
         for i in range(spec["n"]):
@@ -92,6 +189,8 @@ class _ReprLabels(dict):
 
 
 def check_case(case, ctx):
+    if "bigconc" in case:
+        return check_bigconc_case(case, ctx)
     if "ix" in case:
         from .. import ix
         return ix.check(case["ix"], ctx)
